@@ -199,6 +199,180 @@ def run(ctx, report):
     R9 = report.rule('C18.D9', 'a register-name table that is read back with .index() holds no name twice (rendering number -> name and parsing name -> number are inverse)', floor=3)
     name_table_rule(ctx, R9, mod)
 
+    R10 = report.rule('C18.D10', 'the class matcher (metaclass check, evaluated from the source on the fields of every class) accepts the canonical word of the class and rejects '
+                      'every word that differs from it in one fixed field, including fixed fields whose pattern is 0 (reserved bits) and the extended-opcode sets', floor=150)
+    matcher_rule(ctx, R10, M, mod)
+
+    R11 = report.rule('C18.D11', 'every instruction object has its own bit-field objects: what ppc_mn.__init__ stores as self.mask and as the bm_<field> attributes is constructed in that call '
+                      '(decoding a second word must not change what the first instruction re-encodes to)', floor=2)
+    own_fields_rule(ctx, R11, mod)
+
+
+def own_fields_rule(ctx, R, mod):
+    from ..srcmodel import walk_no_nested
+    init = mod.method('ppc_mn', '__init__')
+    self_name = init.args.args[0].arg
+    assigns = {}
+    loop_targets = {}
+    for n in walk_no_nested(init):
+        if isinstance(n, ast.Assign) and len(n.targets) == 1 and isinstance(n.targets[0], ast.Name):
+            assigns.setdefault(n.targets[0].id, []).append(n.value)
+        if isinstance(n, ast.For):
+            for t in ast.walk(n.target):
+                if isinstance(t, ast.Name):
+                    loop_targets[t.id] = n.iter
+        if isinstance(n, ast.comprehension):
+            for t in ast.walk(n.target):
+                if isinstance(t, ast.Name):
+                    loop_targets[t.id] = n.iter
+
+    def reads_self_attr(e):
+        return any(isinstance(x, ast.Attribute) and isinstance(x.value, ast.Name) and x.value.id in (self_name, 'ppc_mn', 'cls') for x in ast.walk(e))
+
+    def fresh_obj(e, depth=0):
+        """'fresh' | 'shared: why' | None (unknown shape)"""
+        if depth > 4:
+            return None
+        if isinstance(e, ast.Call) and any(isinstance(a, ast.Name) and a.id == self_name for a in e.args):
+            return 'fresh'                       # constructed with this instance as parent
+        if isinstance(e, ast.Name):
+            if e.id in loop_targets and e.id not in assigns:
+                it = loop_targets[e.id]
+                if reads_self_attr(it):
+                    return 'shared: an element of %s, which every instruction of the class sees' % u(it)
+                return fresh_list(it, depth + 1) and 'fresh' or None
+            vals = assigns.get(e.id)
+            if vals:
+                rs = [fresh_obj(v, depth + 1) for v in vals]
+                bad = [r for r in rs if r and r.startswith('shared')]
+                if bad:
+                    return bad[0]
+                return 'fresh' if all(r == 'fresh' for r in rs) else None
+        if isinstance(e, (ast.Attribute, ast.Subscript)) and reads_self_attr(e):
+            return 'shared: %s is read from the class / instance, not constructed here' % u(e)
+        return None
+
+    def fresh_list(e, depth=0):
+        if depth > 4:
+            return None
+        if isinstance(e, ast.ListComp):
+            return fresh_obj(e.elt, depth + 1)
+        if isinstance(e, ast.List) and all(fresh_obj(x, depth + 1) == 'fresh' for x in e.elts):
+            # elements added later by .append(x)
+            return 'fresh'
+        if isinstance(e, ast.Name):
+            vals = assigns.get(e.id, [])
+            if not vals:
+                return None
+            rs = [fresh_list(v, depth + 1) for v in vals]
+            bad = [r for r in rs if r and r.startswith('shared')]
+            if bad:
+                return bad[0]
+            if not all(r == 'fresh' for r in rs):
+                return None
+            for n in walk_no_nested(init):
+                if isinstance(n, ast.Call) and isinstance(n.func, ast.Attribute) and n.func.attr in ('append', 'insert') and isinstance(n.func.value, ast.Name) and n.func.value.id == e.id:
+                    r = fresh_obj(n.args[-1], depth + 1)
+                    if r != 'fresh':
+                        return r
+            return 'fresh'
+        if isinstance(e, (ast.Attribute, ast.Subscript)) and reads_self_attr(e):
+            return 'shared: %s is read from the class / instance, not built here' % u(e)
+        if isinstance(e, ast.Call) and isinstance(e.func, ast.Name) and e.func.id == 'list' and len(e.args) == 1:
+            return fresh_list(e.args[0], depth + 1) if not reads_self_attr(e.args[0]) else 'shared: a new list of the objects of %s' % u(e.args[0])
+        return None
+    seen = 0
+    for n in walk_no_nested(init):
+        verdict = what = None
+        if isinstance(n, ast.Assign) and len(n.targets) == 1 and isinstance(n.targets[0], ast.Attribute) and isinstance(n.targets[0].value, ast.Name) \
+                and n.targets[0].value.id == self_name and n.targets[0].attr == 'mask':
+            verdict, what = fresh_list(n.value), 'self.mask'
+        elif isinstance(n, ast.Call) and isinstance(n.func, ast.Name) and n.func.id == 'setattr' and len(n.args) == 3 and isinstance(n.args[0], ast.Name) and n.args[0].id == self_name \
+                and 'bm_' in u(n.args[1]):
+            verdict, what = fresh_obj(n.args[2]), 'the bm_<field> attributes'
+        else:
+            continue
+        seen += 1
+        if verdict == 'fresh':
+            R.ok('__init__:%s' % what, sample='%s: constructed in __init__ with this instance as parent' % what)
+        elif verdict is None:
+            raise AnalysisError('ppc_mn.__init__: cannot tell where %s comes from (%s)' % (what, u(n)[:80]))
+        else:
+            R.violation('__init__:%s' % what, 'own-fields:%s' % what.split()[0], 'ppc_mn.__init__ stores as %s %s: the decoded field values of all instructions of one class live in the same '
+                        'objects, so a kept instruction re-encodes as the most recently decoded one' % (what, verdict[8:]), where(mod, n), witness='decode 0x7D4A5214 then 0x7D615A14 (both ppc_add); bin() of the first')
+    if seen < 2:
+        raise AnalysisError('ppc_mn.__init__ no longer stores self.mask and the bm_<field> attributes (%d stores found)' % seen)
+
+
+def matcher_rule(ctx, R, M, mod):
+    from ..consteval import Evaluator, Obj, Native, NotConst, PyRaise
+    chk = mod.method('ppc_mnemo_metaclass', 'check')
+
+    def fixed(bits):
+        v = m_ = 0
+        for ch in bits:
+            v, m_ = v << 1, m_ << 1
+            if ch in '01':
+                v |= int(ch)
+                m_ |= 1
+        return v, m_
+    for cname in M.tab_mn:
+        fields = M.fields(cname)
+        models, word0, tests = [], 0, []
+        for f in fields:
+            info = M.field_info(f.cname)
+            o = Obj(f.cname)
+            off = 32 - f.start - f.l
+            if info['fbits']:
+                v, fm = fixed(info['fbits'])
+                inv = bool(info.get('checkinv'))
+                o.fbits, o.fmask, o.off, o.l = v, fm, off, f.l
+                o.check = Native(lambda op, v=v, fm=fm, off=off, inv=inv: (((op >> off) & fm) == v) != inv)
+                if inv:
+                    word0 |= ((v ^ (fm & -fm)) & fm) << off
+                else:
+                    word0 |= v << off
+                    if fm:
+                        tests.append((f.cname, (fm & -fm) << off))
+            else:
+                o.fbits, o.off, o.l = None, off, f.l
+                o.check = Native(lambda op: True)
+            models.append(o)
+        for bs in M.classes[cname].bmsets:
+            o = Obj('bm_set')
+            off = 32 - bs.off - bs.l
+            fm = (1 << bs.l) - 1
+            o.fbits, o.fmask, o.off, o.l = list(bs.values), fm, off, bs.l
+            o.check = Native(lambda op, vals=tuple(bs.values), fm=fm, off=off: ((op >> off) & fm) in vals)
+            models.append(o)
+            word0 = (word0 & ~(fm << off)) | (bs.values[0] << off)
+            other = [x for x in range(fm + 1) if x not in bs.values]
+            if other:
+                tests.append(('extended opcode set', ((other[0] ^ bs.values[0]) & fm) << off))
+        cls = Obj(cname)
+        cls.mask_chk = models
+
+        def run(op):
+            try:
+                return bool(Evaluator({}).call_user(chk, [cls, op]))
+            except PyRaise as e:
+                return 'raises %s' % e.exc_name
+            except NotConst as e:
+                raise AnalysisError('ppc_mnemo_metaclass.check is outside the evaluable subset: %s' % e)
+        r0 = run(word0)
+        if r0 is not True:
+            R.violation('%s:canonical' % cname, 'matcher:%s:canonical' % cname, 'the matcher gives %s for %#010x, the word of %s with every variable field 0' % (r0, word0, cname), where(mod, chk))
+            continue
+        R.ok('%s:canonical' % cname, nontrivial=False)
+        for fname, flip in tests:
+            r = run(word0 ^ flip)
+            inst = '%s:%s' % (cname, fname)
+            if r is False:
+                R.ok(inst, sample='%s: %#010x accepted, %#010x (fixed field %s changed) rejected' % (cname, word0, word0 ^ flip, fname))
+            else:
+                R.violation(inst, 'matcher:%s:%s' % (cname, fname), 'the matcher gives %s for %#010x, which differs from the word of %s in the fixed field %s: a word the architecture does not '
+                            'assign to %s is claimed by it' % (r, word0 ^ flip, cname, fname, cname), where(mod, chk), witness='0x7C2004AC decodes as SYNC')
+
 
 def name_table_rule(ctx, R, mod):
     """spr2str(n) is spr_str[n], str2spr(s) is spr_str.index(s): the pair is a bijection only when no name occurs twice.  The tables are evaluated from
@@ -616,6 +790,7 @@ def check_arch(M, mod, R, cname, ci, ref):
 
 
 MUTANTS = [
+    ('check-skips-zero-fbits', 'miasmx/arch/ppc_arch.py', "            if m.fbits is None:\n                continue\n            if not m.check(op):", "            if not m.fbits:\n                continue\n            if not m.check(op):", 'C18.D10'),
     ('exts-no-dot', 'miasmx/arch/ppc_arch.py', "    do_args = [('ra',reg), ('rs',reg)]\n\n    @classmethod\n    def check_opts(cls, rest):\n        if rest in [\"\", \".\"]:\n            return True\n        return False\n", "    do_args = [('ra',reg), ('rs',reg)]\n", 'C18.D8'),
     ('sc-operand-dropped', 'miasmx/arch/ppc_arch.py', "        if args:\n            self.offs = str2imm(args.pop())\n", "", 'C18.D8'),
     ('sr-not-registers', 'miasmx/arch/ppc_arch.py', "+fpr_str+spr_str+sr_str\n", "+fpr_str+spr_str\n", 'C18.D8'),
